@@ -55,6 +55,9 @@ class Contract(object):
         self.setup_ = None           # python callable(interp, path) -> dict of arg values (custom symbolic inputs)
         self.assumes_ = []           # [(name, expr)] assumptions (listed in evidence, never silently)
         self.globals_ = {}           # module-global overrides for this function (name -> python value)
+        self.uses_ = {}              # clause name -> callee clause names whose facts may be used
+        self.init_fields_ = None     # for __init__ contracts: field -> type of the constructed object
+        self.native_checks = []
 
     # ---- declaration helpers (fluent) ----
     def args(self, **types):
@@ -64,6 +67,14 @@ class Contract(object):
     def self_type(self, cls, **fields):
         self.self_class = cls
         self.self_fields = dict(fields)
+        return self
+
+    def init_fields(self, **fields):
+        self.init_fields_ = dict(fields)
+        return self
+
+    def native(self, fn):
+        self.native_checks.append(fn)
         return self
 
     def requires(self, expr, name=None):
@@ -119,8 +130,11 @@ class Contract(object):
         self.yields_each_.append((name or "yields_each%d" % len(self.yields_each_), expr))
         return self
 
-    def yields_seq(self, expr, name=None):
-        self.yields_seq_.append((name or "yields_seq%d" % len(self.yields_seq_), expr))
+    def yields_seq(self, expr, name=None, uses=None):
+        name = name or "yields_seq%d" % len(self.yields_seq_)
+        self.yields_seq_.append((name, expr))
+        if uses is not None:
+            self.uses_[name] = list(uses)
         return self
 
     def trusted(self, note=""):
